@@ -65,6 +65,7 @@ def gen(rng, tier):
             if sg.vars_of(ast):
                 break
         mo = {'kind': kind, 'mode': mode, 'ast': ast}
+        consts_pending = rng.random() < 0.3
         if mode == 'on' and rng.random() < 0.3:
             mo['pastify'] = True       # (a past-time specification: pastify() changes nothing, but the pastifier runs)
         if cfg_:
@@ -75,6 +76,11 @@ def gen(rng, tier):
             tt = (lambda a: sg.to_text(a, None, common.dense_bounds)) if dense else (lambda a: sg.to_text(a))
             mo['subs'] = ['%s = %s;' % (nm, tt(a)) for nm, a in defs]
             mo['top'] = 'out = ' + tt(top) + ';'
+        if consts_pending and not mo.get('subs'):
+            # some literals are declared constants k1, k2: co-hosted objects then use the SAME constant names with other values
+            lits = sorted(set(x[1] for x in sg.walk(ast) if x[0] == 'const' and x[1] >= 0))
+            rng.shuffle(lits)
+            mo['consts'] = [['k%d' % (i + 1), v, 'number'] for i, v in enumerate(lits[:2])]
         mons.append(mo)
     # schedule: offline objects evaluate 1-3 times, online objects step through their stream
     tokens = []
@@ -100,13 +106,18 @@ def gen(rng, tier):
             'hashseeds': [1, 31337] if rng.random() < 0.05 else [],
             # every object is also run ALONE in a fresh interpreter (state that outlives an object - a process-wide cache - pollutes
             # the in-process solo runs as well)
-            'solo_fresh': clash or rng.random() < 0.01}
+            'solo_fresh': clash or rng.random() < 0.01,
+            # the application configures all its objects first (construct, declare) and parses them afterwards
+            'phased_setup': rng.random() < 0.4}
 
 
 def _desc(sc, mo):
     dense = mo['kind'].startswith('ct')
-    text = common.dense_text(mo['ast']) if dense else 'out = ' + sg.to_text(mo['ast']) + ';'
+    a_ = common.consts_to_refs(mo['ast'], mo.get('consts') or [])
+    text = common.dense_text(a_) if dense else 'out = ' + sg.to_text(a_) + ';'
     d = {'cls': mo['kind'], 'vars': common.var_decls(sc['vars']), 'spec': text}
+    if mo.get('consts'):
+        d['consts'] = [[k, 'float', v] for k, v, _ in mo['consts']]
     if mo.get('subs'):
         d = {'cls': mo['kind'], 'vars': common.var_decls(sc['vars']), 'spec': mo['top'], 'subspecs': list(mo['subs'])}
     if mo.get('cfg'):
@@ -137,11 +148,11 @@ def eqv(a, b):
 class Host(object):
     """drives one monitor through its operations on the given (possibly shared) data objects"""
 
-    def __init__(self, sc, j, data, signals, r, check_purity):
+    def __init__(self, sc, j, data, signals, r, check_purity, spec=None):
         self.sc, self.j, self.mo = sc, j, sc['mons'][j]
         self.data, self.signals = data, signals
         self.dense = self.mo['kind'].startswith('ct')
-        self.spec = M.build(_desc(sc, self.mo))
+        self.spec = spec if spec is not None else M.build(_desc(sc, self.mo))
         if self.dense and self.mo['mode'] == 'off' and sc.get('dup_stamp'):
             sig2 = {}
             for v in signals:
@@ -241,7 +252,11 @@ def execute(sc, shared, r, check_purity):
     else:
         datas = [copy.deepcopy(base) for _ in sc['mons']]
         sigs = [copy.deepcopy(sc['signals']) for _ in sc['mons']]
-    hosts = [Host(sc, j, datas[j], sigs[j], r, check_purity) for j in range(len(sc['mons']))]
+    specs = [None] * len(sc['mons'])
+    if sc.get('phased_setup') and len(sc['mons']) > 1:
+        specs = M.build_phased([_desc(sc, mo) for mo in sc['mons']])
+        r.faults['objects_configured_first_parsed_afterwards'] += 1
+    hosts = [Host(sc, j, datas[j], sigs[j], r, check_purity, specs[j]) for j in range(len(sc['mons']))]
     for j in sc['schedule']:
         hosts[j].op()
     return [h.outs for h in hosts]
